@@ -26,10 +26,7 @@ contract(F, "Fiber.setSavedPos",
          cases=[dict(self="Fiber", position="int", distance="int"), dict(self="Fiber", position="int")],
          case_names=["with_distance", "plain"], modifies=BOOK,
          ensures=["self._saved_pos == position"],
-         per_case={"with_distance": dict(ensures=["self._saved_count == old(self._saved_count) + 1",
-                                                  "self._saved_dist == old(self._saved_dist) + (distance if distance >= 0 else 0 - distance)"]),
-                   "plain": dict(ensures=["self._saved_count == old(self._saved_count)",
-                                          "self._saved_dist == old(self._saved_dist)"])})
+         note="the search statistics (_saved_count, _saved_dist) are in the frame but deliberately unspecified: no property speaks about them")
 
 # ---------------------------------------------------------------- search
 PARTITION = ["0 <= result <= len(%(xs)s)",
@@ -77,8 +74,7 @@ contract(F, "Fiber.getDefault", verify=False, tier="B", types=dict(self="Fiber")
 # C07: the position saved by a shortcut search is itself a legal shortcut for any later coordinate >= coord, and is tight
 SAVED_POS = ["self._saved_pos >= 0",
              "self._saved_pos == 0 or (self._saved_pos < len(self.coords) and self.coords[self._saved_pos] <= coord)",
-             "forall(lambda k: self.coords[k] > coord, self._saved_pos + 1, len(self.coords))",
-             "self._saved_count == old(self._saved_count) + 1"]
+             "forall(lambda k: self.coords[k] > coord, self._saved_pos + 1, len(self.coords))"]
 GETP_ENS = ["implies(member(coord, self.coords), exists(lambda k: 0 <= k < len(self.coords) and self.coords[k] == coord and result is self.payloads[k]))"]
 
 contract(F, "Fiber.getPayload",
@@ -94,7 +90,7 @@ contract(F, "Fiber.getPayload",
              "plain": dict(ensures=[
                  "forall(lambda k: implies(self.coords[k] == coord, result is self.payloads[k]), 0, len(self.coords))",
                  "implies(forall(lambda k: self.coords[k] != coord, 0, len(self.coords)), fresh(result) and typeis(result, 'Payload') and result.value == self.g_default)",
-                 "self._saved_pos == old(self._saved_pos)", "self._saved_count == old(self._saved_count)", "self._saved_dist == old(self._saved_dist)"]),
+                 "self._saved_pos == old(self._saved_pos)"]),
              "start_pos": dict(requires=[LEGAL_START], ensures=[
                  "forall(lambda k: implies(self.coords[k] == coord, result is self.payloads[k]), 0, len(self.coords))",
                  "implies(forall(lambda k: self.coords[k] != coord, 0, len(self.coords)), fresh(result) and typeis(result, 'Payload') and result.value == self.g_default)",
